@@ -48,8 +48,9 @@ type c17WDir struct {
 }
 
 type c17WRef struct {
-	D int     `json:"d"`
-	F *string `json:"f,omitempty"` // nil: the path denotes a directory whose parent is D
+	D     int     `json:"d"`
+	F     *string `json:"f,omitempty"`     // nil: the path denotes a directory whose parent is D
+	Stdin bool    `json:"stdin,omitempty"` // the path "-"
 }
 
 type c17WPath struct {
@@ -78,6 +79,7 @@ type c17Wire struct {
 	EnvFiles []c17WEnv  `json:"envfiles"`
 	Opts     []c17Opt   `json:"opts"`
 	Probe    string     `json:"probe"`
+	Stdin    []c17Doc   `json:"stdin,omitempty"` // documents of the compose file on standard input (config path "-")
 }
 
 func c17WEnvOf(f c17EnvFile) c17WEnv {
@@ -268,6 +270,10 @@ func realC17Load(raw json.RawMessage) any {
 	}
 	var configs []string
 	for _, g := range a.Given {
+		if g.Stdin {
+			configs = append(configs, "-")
+			continue
+		}
 		p, ok := refPath(g)
 		if !ok {
 			return c17Bad("given config not a file reference")
@@ -358,13 +364,37 @@ func realC17Load(raw json.RawMessage) any {
 	if err != nil {
 		return map[string]any{"err": c17ErrClass(err), "at": "options"}
 	}
+	nStdin := 0
 	for _, cp := range po.ConfigPaths {
 		if cp == "-" {
-			return c17Bad("stdin config path") // would read the harness' own stdin
+			nStdin++
+			continue
 		}
 		if !strings.HasPrefix(cp, root+string(filepath.Separator)) {
 			return c17Bad("config path outside the test tree: %s", cp)
 		}
+	}
+	if nStdin > 1 {
+		return c17Bad("more than one stdin config path")
+	}
+	if nStdin == 1 {
+		// standard input of this child is the harness' own protocol pipe (the server holds its *os.File): the
+		// package variable is pointed at a file with the case's content for the duration of the load
+		var parts []string
+		for di, doc := range a.Stdin {
+			parts = append(parts, c17Yaml(a.Probe, 0, di, doc))
+		}
+		sp := filepath.Join(root, "stdin.yaml")
+		if err := os.WriteFile(sp, []byte(strings.Join(parts, "---\n")), 0o644); err != nil {
+			return c17Bad("%v", err)
+		}
+		f, err := os.Open(sp)
+		if err != nil {
+			return c17Bad("%v", err)
+		}
+		old := os.Stdin
+		os.Stdin = f
+		defer func() { os.Stdin = old; f.Close() }()
 	}
 	p, err := po.LoadProject(context.Background())
 	if err != nil {
